@@ -15,7 +15,7 @@ EXPLANATION = (
     "value-level round trip.")
 # every anchor of these rules lives in the h3 crate: thorough tier repeats them on the feature-less build
 EXTRA_CONFIGS = ["h3-plain"]
-RULES = "C16-a varint form tables (A5/A6/A11); C16-b stream-id bit layout and saturating add; C16-c constructor privacy"
+RULES = "C16-a varint form tables (A5/A6/A11); C16-b stream-id bit layout, saturating add, is_request truth table over the four kinds of id; C16-c constructor privacy"
 
 V = "h3::proto::varint::VarInt"
 S = "h3::proto::stream::StreamId"
